@@ -272,6 +272,8 @@ def r2_sql(ctx, repo, cls):
             # executemany(upsert, ROWS)
             rows = c.args[1]
             src = rows
+            if isinstance(src, ast.Name) and stmt_of.get(id(c)) is not None:
+                src = TF.expand(src, at=stmt_of[id(c)])          # rows built in a local first
             while isinstance(src, ast.Call) and access_path(src.func) in ("list", "tuple", "iter") and src.args:
                 src = src.args[0]
             if isinstance(src, (ast.ListComp, ast.GeneratorExp)) and len(src.generators) == 1:
@@ -302,6 +304,15 @@ def r2_sql(ctx, repo, cls):
             else:
                 verdict, detail = None, "rows %s not recognised" % text(rows)
         C2 = "SqliteDataStore.%s" % name
+        # a synchronisation adds and replaces rows; a statement that removes rows takes away what an earlier synchronisation
+        # had stored (designs written one by one that are no longer in the list being written now)
+        from .c11 import sql_of
+        for c in ex:
+            sql_ = sql_of(cls, c.args[0]) if c.args else None
+            if sql_ and re.match(r"\s*(DELETE|DROP|TRUNCATE)\b", sql_, re.I):
+                verdict, detail = False, ("%s executes `%s`: every row stored by an earlier synchronisation is removed, and only the individuals in the list written now come back - a "
+                                          "design that was synchronised on its own (an offspring cut by the selection, a neighbour point) is no longer returned by a reader"
+                                          % (name, " ".join(sql_.split())))
         if verdict is True:
             ctx.holds("R2", C2, where(mod, fn), "writes the upsert bound to (individual.id, json.dumps(individual.to_dict()))", key="binding")
         elif verdict is False:
